@@ -11,6 +11,7 @@ for pid in sorted(PROPS):
     cat = p["level"]
     tech = PROOF_TECH if cat == "proof" else {
         "fault_enumeration": "crash / fault point enumeration over the observed I/O events of the real implementation, outcomes compared with an executable Coq specification (extracted)",
+        "translation_validation": "an independent decoder written in Coq (extracted) translates the real files back to the abstract state and checks well-formedness; compared with the executable Coq specification",
         "exploration": "differential testing of the implementation against an executable Coq specification (extracted to OCaml)",
     }.get(cat, cat)
     checks.append({
@@ -44,7 +45,11 @@ m = {
     "engines": [
         {"name": "E-proof", "path": "coq/", "serves_properties": [c["property_id"] for c in checks if c["level_claimed"]["category"] == "proof"], "kind_free_text": "Coq 8.16.1 development (models, proofs, Props/Cxx.v pinned statements with Print Assumptions), rebuilt and audited by tools/check"},
         {"name": "E-sys", "path": "harness/src/sys.rs", "serves_properties": [c["property_id"] for c in checks if c["engine"] == "E-sys"], "kind_free_text": "API-level differential run of real Nomt against the Coq Store/Trie specification extracted to OCaml (ocaml/model)"},
-        {"name": "E-io", "path": "harness/src/io.rs + tools/shim.c", "serves_properties": [c["property_id"] for c in checks if c["engine"] == "E-io"], "kind_free_text": "child processes with an LD_PRELOAD observer: I/O event traces, crash-at-event-k, fail-at-event-k; recovered directory compared with the Coq specification"},
+        {"name": "E-core", "path": "harness/src/core.rs + ocaml/core_cmds.ml + coq/theories/CoreGlue.v", "serves_properties": ["C02", "C06", "C07", "C08", "C18"], "kind_free_text": "function-level differential of nomt-core (build_trie, PathProof::verify, confirm_*, verify_update, MultiProof::*, multi verify_update) against the extracted Coq mirrors, honest and mutated / malformed inputs, catch_unwind"},
+        {"name": "E-img", "path": "coq/theories/Image.v + ocaml/img_cmds.ml + harness/src/img.rs", "serves_properties": ["C16", "C19"], "kind_free_text": "Coq decoder of the on-disk formats (extracted) run on the real files at every quiescent point; well-formedness, abstraction to the key/value state, merkle pages vs the canonical trie"},
+        {"name": "E-conc", "path": "harness/src/conc.rs", "serves_properties": [c["property_id"] for c in checks if c["engine"] == "E-conc"], "kind_free_text": "multi-threaded programs against one handle; observations checked against the Coq Store states (version stamps), chain of commits, exclusion by time stamps, watchdog"},
+        {"name": "E-lock", "path": "harness/src/lock.rs + tools/shim.c", "serves_properties": [c["property_id"] for c in checks if c["engine"] == "E-lock"], "kind_free_text": "in-process and multi-process open races, holder endings; observer traces of refused openers"},
+        {"name": "E-io", "path": "harness/src/io.rs + harness/src/pl.rs + tools/shim.c", "serves_properties": [c["property_id"] for c in checks if c["engine"] == "E-io"], "kind_free_text": "child processes with an LD_PRELOAD observer: I/O event traces, crash-at-event-k, fail-at-event-k; recovered directory compared with the Coq specification"},
     ],
     "checks": checks,
     "notes": "See DESIGN.md. Properties not yet claimed are listed under not_applicable with the reason 'not built yet' (planned, not inapplicable).",
